@@ -409,6 +409,10 @@ class List(list, base.Symbolic, pg_typing.CustomTyping):
     if isinstance(value, Insertion):
       should_insert = True
       value = value.value
+      # A child of this list that is inserted at its own position must be
+      # copied as well: it stays in the list (shifted by the insertion).
+      if isinstance(value, base.Symbolic) and value.sym_parent is self:
+        value = value.clone()
 
     old_value = pg_typing.MISSING_VALUE
     # Replace an existing value.
